@@ -321,6 +321,7 @@ def frame_problems(enc: bytes):
 
 
 SIG_BODYLEN = "C10-bodylength-not-verified"
+SIG_UNTERM = "C10-unterminated-frame-returned"
 
 
 def classify_returned(enc: bytes):
@@ -334,7 +335,9 @@ def classify_returned(enc: bytes):
         sigs.append((SIG_BODYLEN, "a frame whose BodyLength(9) disagrees with its bytes is returned as a message "
                      "(BodyLength is never compared with the bytes)"))
     if "no-trailing-soh" in probs and not sigs:
-        sigs.append(("C10-returned-frame:no-trailing-soh", "a frame without its final SOH was returned"))
+        sigs.append((SIG_UNTERM, "a frame whose CheckSum field is not terminated by SOH (e.g. a valid frame whose last byte "
+                     "was deleted, followed by the first bytes of the next frame) is returned as a message, and one byte "
+                     "of the following frame is consumed with it"))
     return sigs, probs
 
 
@@ -622,6 +625,7 @@ def finding_witnesses():
     return [
         ("pinned-test-frame", pinned),
         ("nul-inserted-into-value", f[:i] + b"\x00" + f[i:]),
+        ("final-soh-deleted+next-marker", f[:-1] + b"8=FIX."),
     ]
 
 
